@@ -114,10 +114,11 @@ func (v *V2) ReadHeaderWithValidation(buf []byte, startFileOffset uint32) (paylo
 		return payloadSize, previousCrc, payloadCrc, errors.Wrapf(ErrEmptyPayload, "unexpected empty payload")
 	}
 
-	expectSize := payloadSize + v.HeaderSize
+	// 64-bit arithmetic: a damaged length close to MaxUint32 must not wrap around
+	expectSize := uint64(payloadSize) + uint64(v.HeaderSize)
 	// overflow checking
 	actualBufSize := bufSize - startFileOffset
-	if expectSize > actualBufSize {
+	if expectSize > uint64(actualBufSize) {
 		return payloadSize, previousCrc, payloadCrc,
 			errors.Wrapf(ErrOffsetOutOfBounds, "expected payload size: %d. actual buf size: %d ", expectSize, bufSize)
 	}
